@@ -27,6 +27,7 @@ def generate(rng, tier):
     n = 300 if tier == 'quick' else 6000
     for _ in range(n):
         lines = []
+        spare = None
         if rng.random() < 0.5:
             ncls = rng.randint(1, 3)
             for c in range(ncls):
@@ -47,6 +48,17 @@ def generate(rng, tier):
             if rng.random() < 0.7:
                 lines += gen_disp.gen_reactions(rng, objs, mapping_of, ['add', 'remove', 'enable'],
                                                 p=0.3, raise_p=0.6)
+            if rng.random() < 0.4:
+                # a listener that, from inside its callback, makes the transform notify again (what assigning
+                # another property of the same transform from a callback comes to for the dispatcher)
+                o = rng.choice(list(objs))
+                ms = sorted(set((mapping_of[objs[o]] or {}).values()))
+                if ms:
+                    lines.append(f'react {o} {rng.choice(ms)} {rng.randint(0, 1)} : dispatch {rng.choice(EVENTS)} _')
+            # spare listeners for the churn block below (created only when first used)
+            spare = [nobj + j for j in range(3)]
+            hc = next(iter(objs.values()))
+            lines += [f'obj {x} class={hc} hash={rng.randint(0, 3)}' for x in spare]
         dims = []
         for i in range(rng.randint(1, 3)):
             dim = rng.choice([2, 3])
@@ -62,8 +74,16 @@ def generate(rng, tier):
             for o in range(nobj):
                 if rng.random() < 0.6:
                     lines.append(f'top {i} add {o}')
-        for _ in range(rng.randint(1, 25)):
+        churn_at = rng.randint(0, 6) if spare and rng.random() < 0.5 else -1
+        for step in range(rng.randint(1, 25)):
             i = rng.randrange(len(dims))
+            if step == churn_at:
+                # short-lived listeners followed by fresh ones on the same transform
+                for a, b in zip(spare, spare[1:]):
+                    lines += [f'top {i} add {a}', f'top {i} drop {a}', f'top {i} add {b}']
+                    f = rng.choice(['position', 'scale'])
+                    lines.append(f'top {i} set {f} {vec(rng, dims[i])}')
+                    lines += [f'top {i} read {g}' for g in FIELDS]
             k = rng.random()
             if k < 0.7:
                 f = rng.choice(FIELDS)
@@ -76,7 +96,8 @@ def generate(rng, tier):
                     for g in FIELDS:
                         lines.append(f'top {j} read {g}')
             elif k < 0.8 and nobj:
-                lines.append(f'top {i} {rng.choice(["add", "remove"])} {rng.randrange(nobj)}')
+                # (drop: the program lets the listener go; a listener created later may get its address)
+                lines.append(f'top {i} {rng.choice(["add", "add", "remove", "drop"])} {rng.randrange(nobj)}')
             elif k < 0.9:
                 lines.append(f'top {i} enable {rng.randint(0, 1)}')
             else:
@@ -125,7 +146,7 @@ def oracle(lines, obs):
             z, o = ('p0_0', 'p1_1') if dim == 2 else ('p0_0_0', 'p1_1_1')
             rot = t[3] if t[3] != '-' else ('0' if dim == 2 else 'p0_0_0')
             d = spec_disp.Spec(decl, [])
-            d.hints, d.calls, d.out = shared.hints, shared.calls, out
+            d.hints, d.calls, d.out, d.held = shared.hints, shared.calls, out, shared.held
             if dim == 2 and rot[0] in 'ptl':
                 out.prefix = ''
                 out.append('res raised TypeError')
